@@ -537,6 +537,7 @@ def special_flag(F):
         # histories, and the function is then never visited by the resolver
         if M in special and not opt_ids:
             from rules.fields import _tail_values
+            ret_leaves = {id(x) for x in _tail_values(ai["body"])}
             for m_ in walk(ai["body"]):
                 if m_.get("k") != "Match":
                     continue
@@ -545,6 +546,8 @@ def special_flag(F):
                     continue
                 for i_ in picked:
                     for tv in _tail_values(m_["arms"][i_]["body"]):
+                        if id(tv) not in ret_leaves:
+                            continue        # the match computes something else (e.g. selects the target list), not the result
                         tv = peel(tv)
                         src_ = tv
                         if tv.get("k") == "Path" and tv.get("res", {}).get("r") == "local":
